@@ -239,7 +239,7 @@ def direct_predicate(c, r, partner=None):
     """-> list of (key, description)"""
     bad = []
     m = len(c["ls"])
-    for k in ("st", "cw", "cwi"):
+    for k in ("st", "cw", "cwi", "cwn"):
         if k in r and "error" in r[k]:
             bad.append((f"raises:{k}:{r[k]['error']}", f"{k} raised {r[k]['error']}: {r[k].get('msg', '')}"))
     if bad or degenerate(c):
@@ -269,6 +269,11 @@ def direct_predicate(c, r, partner=None):
         if abs(r["cwi"]["z"] - cw["z"]) > tol or wdiff(r["cwi"]["w"], cw["w"]) > tol:
             bad.append(("int-nlive-vs-array-nlive", f"compute_weights(nlive={c['int_nlive']}) {r['cwi']['z']!r} vs per-iteration "
                         f"schedule {cw['z']!r}"))
+    if "cwn" in r:
+        # the dtype of the live-count array is not part of the quadrature: identical results
+        if not abs(r["cwn"]["z"] - cw["z"]) <= tol or not wdiff(r["cwn"]["w"], cw["w"]) <= tol:
+            bad.append(("nlive-dtype", f"compute_weights with an integer-dtype nlive array gives {r['cwn']['z']!r}, with the same "
+                        f"counts as floats {cw['z']!r}"))
     # weights are normalised against the trapezoid evidence: sum of rectangle weights = Zrect / Ztrap
     if partner is not None:
         pc, pr = partner
